@@ -27,6 +27,7 @@ RULE = (
     ' Round 5: the schema/gateway may be built in a copied contextvars context or another thread (`ctx`), and the warm-up may contain ill-formed look-alikes of the message (each field replaced, or the line cut short).'
     ' Round 6: a decoded message (or a copy of it) edited by the caller must encode to its edited fields.'
     " Round 7: header grid (nodes x shapes x ack x types 0-40) with a ';' payload; line-ending variants decoded before the encoder is checked."
+    ' Round 8: cut warm-up lines without terminator; lone-surrogate payloads.'
 )
 ASSUMPTIONS = [
     "MessageSchema with set_protocol(get_protocol(v)) is the codec entry point (as in the repository's tests)",
